@@ -10,7 +10,7 @@
    Leave-in-place clause: models of constant-fold-interp and the test folding passes (C14/ModelInt.v). *)
 From Coq Require Import ZArith Bool List PrimFloat SpecFloat FloatOps.
 From XV Require Import C14.Pre Gen.C14_Arith C14.SpecInt C14.ModelInt C14.ProofsInt
-                       C14.ModelFloat C14.ProofsFloat C14.ModelCSE C14.SpecCSE C14.ProofsCSE.
+                       C14.ModelFloat C14.ProofsFloat C14.ModelCSE C14.SpecCSE C14.ProofsCSE C14.SelCmpf.
 Local Open Scope Z_scope.
 
 (* ------------------------------------------------------------------ (a) integer folds *)
@@ -157,6 +157,34 @@ Theorem C14_fold_f32_overflow_old_refuted :
   ieee32 FAdd two127 two127 = S754_infinity false.
 Proof. exact fold_f32_old_overflow_refuted. Qed.
 Print Assumptions C14_fold_f32_overflow_old_refuted.
+
+(* SelectFoldCmpfPattern (select of a cmpf with fastmath nnan+nsz on the same operands IN THE SAME ORDER becomes
+   maximumf / minimumf): for non-NaN operands the selected value is preserved up to the sign of a zero -- exactly
+   the nnan / nsz contract; the pattern does nothing without both flags, on another condition, or when the select
+   operands are in the other order (where the same rewrite would be wrong: last example) *)
+Theorem C14_select_fold_cmpf_sound : forall is_cmpf nnan nsz pred x y b,
+  x <> S754_nan -> y <> S754_nan -> cmpf_sem pred x y = Some b ->
+  match pat_select_fold_cmpf is_cmpf nnan nsz true pred with
+  | SCNoChange => True
+  | SCMax => nsz_eq (fselect_sem b x y) (maximumf_sem x y)
+  | SCMin => nsz_eq (fselect_sem b x y) (minimumf_sem x y)
+  end.
+Proof. exact select_fold_cmpf_sound. Qed.
+Print Assumptions C14_select_fold_cmpf_sound.
+
+Theorem C14_select_fold_cmpf_guards : forall pred so,
+  pat_select_fold_cmpf false true true so pred = SCNoChange /\
+  pat_select_fold_cmpf true false true so pred = SCNoChange /\
+  pat_select_fold_cmpf true true false so pred = SCNoChange /\
+  pat_select_fold_cmpf true true true false pred = SCNoChange.
+Proof. exact select_fold_cmpf_guards. Qed.
+Print Assumptions C14_select_fold_cmpf_guards.
+
+Example C14_select_fold_cmpf_order_matters :
+  let x := S754_finite false 1 0 in let y := S754_finite false 1 1 in
+  cmpf_sem 2 x y = Some false /\ fselect_sem false y x = x /\ maximumf_sem y x = y /\ ~ nsz_eq x y /\
+  pat_select_fold_cmpf true true true false 2 = SCNoChange.
+Proof. exact select_fold_cmpf_swapped_would_be_wrong. Qed.
 
 (* ------------------------------------------------------------------ (c) CSE *)
 
